@@ -272,6 +272,28 @@ func (n *Net) CheckThreshold(epochAt func(nd *Node, round uint64) *fx.Net) *Find
 				continue
 			}
 			e := epochAt(nd, put.Round)
+			if n.AltEpoch != nil {
+				// the scenario may allow a second polynomial for this Put (a new group that is already live by the clock and
+				// produces a round the old group still owed)
+				if alt := n.AltEpoch(nd, put); alt != nil && alt != e {
+					cnt := map[int]bool{}
+					for _, ev := range tap {
+						if ev.Round != put.Round || (fx.Chained(n.Cfg.Scheme) && !bytes.Equal(ev.Prev, put.Prev)) {
+							continue
+						}
+						own := ev.From == nd.Pos && !ev.Injected
+						if (own && ev.Step > put.Step) || (!own && (ev.To != nd.Pos || !ev.Started || ev.Seq > put.Seq)) {
+							continue
+						}
+						if idx := n.ValidPartialIndex(alt, put.Round, put.Prev, ev.Sig); idx >= 0 {
+							cnt[idx] = true
+						}
+					}
+					if len(cnt) >= alt.T {
+						continue
+					}
+				}
+			}
 			prev := put.Prev
 			if fx.Chained(n.Cfg.Scheme) && len(prev) == 0 {
 				// trimmed stores strip nothing at Put time; chained puts always carry prev
@@ -299,8 +321,11 @@ func (n *Net) CheckThreshold(epochAt func(nd *Node, round uint64) *fx.Net) *Find
 				}
 			}
 			if len(V) < e.T {
-				return &Finding{"C03/beacon-below-threshold", fmt.Sprintf("node %d stored round %d although only %d distinct valid member partials for that (round, previous signature) had reached it (threshold %d): indices %v",
-					nd.Pos, put.Round, len(V), e.T, keys(V)), map[string]any{"node": nd.Pos, "round": put.Round, "have": keys(V), "threshold": e.T}}
+				n.mu.Lock()
+				noteSeq, noted := n.syncDelivered[nd.Addr][put.Round]
+				n.mu.Unlock()
+				return &Finding{"C03/beacon-below-threshold", fmt.Sprintf("node %d stored round %d although only %d distinct valid member partials for that (round, previous signature) had reached it (threshold %d): indices %v [put seq %d step %d inc %d; sync delivery noted=%v seq=%d]",
+					nd.Pos, put.Round, len(V), e.T, keys(V), put.Seq, put.Step, put.Incarnation, noted, noteSeq), map[string]any{"node": nd.Pos, "round": put.Round, "have": keys(V), "threshold": e.T}}
 			}
 		}
 	}
